@@ -17,6 +17,7 @@
 package paths
 
 import (
+	"fmt"
 	"path"
 	"path/filepath"
 
@@ -24,7 +25,10 @@ import (
 )
 
 func (r *relativePathsResolver) maybeUnixPath(a any) (any, error) {
-	p := a.(string)
+	p, ok := a.(string)
+	if !ok {
+		return nil, fmt.Errorf("unexpected type %T", a)
+	}
 	p = ExpandUser(p)
 	// Check if source is an absolute path (either Unix or Windows), to
 	// handle a Windows client with a Unix daemon or vice-versa.
